@@ -18,3 +18,21 @@ package channel
 //@      typeof(values[2]) == typetag("channel.OptAppEnc") && as(values[2], "channel.OptAppEnc").App == p.App &&
 //@      typeof(values[3]) == typetag("bool") && as(values[3], "bool") == p.LedgerChannel &&
 //@      typeof(values[4]) == typetag("bool") && as(values[4], "bool") == p.VirtualChannel)
+
+// Sign and Verify (C15): the signature is made and checked over the encoding of exactly the given state - the state's own
+// encoder (the one the C14 round-trip lemma and the C15 comparison contracts speak about) writes every field of that state into a
+// buffer, and exactly that buffer's content (bufferOf: the buffer a Bytes() result came from) goes to the account's signer / the
+// wallet's verifier, together with the given signature and address. (off == 0 && len == cap: the whole content, not a sub-slice of it -
+// in the model a Bytes() result has no spare capacity.)
+//@ pred sameStateFields(s channel.State, t *channel.State) = s.Version == t.Version && s.App == t.App && s.Data == t.Data && s.IsFinal == t.IsFinal &&
+//@   s.Assets == t.Assets && s.Backends == t.Backends && s.Balances == t.Balances && s.Locked == t.Locked && forall k int :: 0 <= k && k < 32 ==> s.ID[k] == t.ID[k]
+//@ func (*backend).Sign
+//@   requires arg0 != nil && arg1 != nil
+//@   modifies *
+//@   callsite (State).Encode : sameStateFields(s, outer_arg1) && payload(w) == buff
+//@   callsite wallet.Account.SignData : recv == outer_arg0 && bufferOf(arg0) == buff && off(arg0) == 0 && len(arg0) == cap(arg0)
+//@ func (*backend).Verify
+//@   requires arg0 != nil && arg1 != nil
+//@   modifies *
+//@   callsite (State).Encode : sameStateFields(s, outer_arg1) && payload(w) == buff
+//@   callsite VerifySignature : bufferOf(msg) == buff && off(msg) == 0 && len(msg) == cap(msg) && sign == outer_arg2 && a == outer_arg0
